@@ -55,6 +55,19 @@ inductive Tok where
   | serr (msg : Str)
   deriving Repr, DecidableEq, BEq
 
+
+/-- Tokenizer token (the dicts of `_tokenizer.py`). `vars` of a parse error are the
+`datavars` rendered as strings (an `int` in decimal). -/
+inductive TTok where
+  | doctype (name : Option Str) (pub sys : Option Str) (correct : Bool)
+  | chars (s : Str)
+  | space (s : Str)
+  | startTag (name : Str) (attrs : List (Str × Str)) (selfClosing : Bool)
+  | endTag (name : Str) (attrs : List (Str × Str)) (selfClosing : Bool)
+  | comment (s : Str)
+  | parseError (code : Str) (vars : List (Str × Str))
+  deriving Repr, DecidableEq, BEq
+
 /-- Abstract tree (what every tree builder is abstracted to). -/
 inductive Tree where
   | doc (children : List Tree)
